@@ -945,6 +945,7 @@ def run_split(res, rng, quick):
         exp = copt(out, lambda t: cpair(*(cstr(x) for x in t)))
         cases.append(cpair(cstr(content), exp))
         meta.append((content, out))
+        res.seen(('content', content), nontrivial=out is not None)
         res.count('split:' + ('nomatch' if out is None else
                               'material' if (out[2] + out[0]).lower() == 'm'
                               else 'other'))
@@ -991,6 +992,7 @@ def run_split(res, rng, quick):
             exp = f'(Err {out[1]})'
         cases.append(cpair(clist(cstr(c) for c in block), exp))
         meta.append((block, out))
+        res.seen(('block', block), nontrivial=len(block) >= 2)
         res.count('materials:' + (out[1] if out[0] == 'err' else
                                   f'{min(len(out[1]), 4)}'))
     bad, errs = common.run_case_files(
